@@ -23,13 +23,20 @@ func (s Spec) targetFiles(t Target) []string {
 	var out []string
 	for _, i := range s.targetNodes(t) {
 		out = append(out, aPath(i), bPath(i))
+		// the vendored well-known type lies outside the package directory p<i> (pathdir target)
+		if i == s.WKTProv && t.Kind != "pathdir" {
+			out = append(out, wktProvPath)
+		}
 	}
 	return out
 }
 
 func (s Spec) commitOf(i int) string {
 	if s.Kinds[i] == KRemote {
-		return commitString(commitID(i, false)) // the newest commit wins
+		if i == s.TwoCommit {
+			return commitString(commitIDAge(i, s.newestPinnedAge())) // the newest pinned commit wins
+		}
+		return commitString(commitID(i, false))
 	}
 	return "" // a module present locally wins over a pinned commit of the same name
 }
@@ -118,14 +125,9 @@ func (s Spec) expectDAG(t Target) (cycle bool, obs *DAGObs) {
 // attributed to the effective version of its module.
 func (s Spec) expectImage(t Target) []ImgFile {
 	var out []ImgFile
-	for _, f := range refImage(s.G, s.targetFiles(t)) {
+	for _, f := range refImage(s.G, s.WKTProv, s.targetFiles(t)) {
 		x := ImgFile{Path: f.Path, IsImport: f.IsImport}
-		if f.Path != wktPath {
-			var i int
-			// p<i>/...
-			for k := 1; k < len(f.Path) && f.Path[k] != '/'; k++ {
-				i = i*10 + int(f.Path[k]-'0')
-			}
+		if i := s.ownerOf(f.Path); i >= 0 {
 			x.Module = s.nameOf(i)
 			x.Commit = s.commitOf(i)
 		}
@@ -134,9 +136,25 @@ func (s Spec) expectImage(t Target) []ImgFile {
 	return out
 }
 
+// ownerOf is the node whose module provides path p; -1 for a well-known type no module provides.
+func (s Spec) ownerOf(p string) int {
+	if p == wktProvPath {
+		return s.WKTProv
+	}
+	if p == wktPath {
+		return -1
+	}
+	var i int
+	// p<i>/...
+	for k := 1; k < len(p) && p[k] != '/'; k++ {
+		i = i*10 + int(p[k]-'0')
+	}
+	return i
+}
+
 // needsFile reports whether the image for t needs path p (it is a target file or in the import closure).
 func (s Spec) needsFile(t Target, p string) bool {
-	for _, f := range refImage(s.G, s.targetFiles(t)) {
+	for _, f := range refImage(s.G, s.WKTProv, s.targetFiles(t)) {
 		if f.Path == p {
 			return true
 		}
